@@ -43,18 +43,21 @@ inductive Plan where
   | perFile (created : Bool)
   deriving Repr, DecidableEq
 
-/-- `if ($opt_d)`: the script tests the TRUTH of the directory name, so `-d 0` (and `-d ''`) count as "no -d"
-(F19-DIRZERO); `fixD0 = true` is the script with `defined $opt_d` instead (probed by the check) -/
-def dGiven (fixD0 : Bool) (o : Opts) : Bool :=
+/-- `if (defined $opt_d)` — THE SCRIPT (since /repo 8474bb4): -d was given, whatever the directory is called
+(`truth = false`, what the driver runs unless the check's probe finds the older script).  `truth = true` is the
+script BEFORE that commit: `if ($opt_d)` tested the TRUTH of the directory name, so `-d 0` (and `-d ''`) counted
+as "no -d" (F19-DIRZERO, `d0_ignored_before_8474bb4`); kept so that a script that loses `defined` again is still
+described exactly and reported with `-d 0` as the replay. -/
+def dGiven (truth : Bool) (o : Opts) : Bool :=
   match o.d with
   | none => false
-  | some s => fixD0 || perlTrue s
+  | some s => !truth || perlTrue s
 
 /-- the block "Process args", test by test in the script's order -/
-def plan (fixD0 : Bool) (o : Opts) (ds : DirState) : Plan :=
+def plan (truth : Bool) (o : Opts) (ds : DirState) : Plan :=
   if o.h then .usage
-  else if o.c && dGiven fixD0 o then .fatal                     -- "Do not specify both -c and -d"
-  else if dGiven fixD0 o then
+  else if o.c && dGiven truth o then .fatal                     -- "Do not specify both -c and -d"
+  else if dGiven truth o then
     if o.f && ds != .dir then (if ds == .missing then .perFile true else .fatal)    -- mkpath
     else if ds == .dir then .perFile false else .fatal          -- "Output directory ... does not exist"
   else if o.f then .fatal                                       -- "Option -f may only be used with -d"
